@@ -253,8 +253,11 @@ fn catalogue<V: Cv>(thorough: bool, seed: u64) -> Vec<Task<V>> {
     // single points: identity, generator, randoms (+ outside-subgroup where admitted)
     let mut singles: Vec<RP> = vec![id.clone(), g.clone()];
     singles.extend(pts.r.iter().take(nr).cloned());
-    singles.extend(pts.outside.iter().cloned());
     let singles_v: Vec<Vec<Val>> = singles.iter().map(|p| vec![pv(p)]).collect();
+    // operands outside the prime-order subgroup (BLS12-381 chip = "the whole BLS curve") go to
+    // entries of their own, so that a failure there has its own signature
+    const OUT: &str = "operand outside the prime-order subgroup";
+    let singles_out: Vec<Vec<Val>> = pts.outside.iter().map(|p| vec![pv(p)]).collect();
 
     // pairs: identity combinations, P=Q, P=-Q, 2P vs P+P, random
     let mut pairs: Vec<(RP, RP)> = vec![
@@ -274,13 +277,14 @@ fn catalogue<V: Cv>(thorough: bool, seed: u64) -> Vec<Task<V>> {
     for i in 2..nr.saturating_sub(1) {
         pairs.push((pts.r[i].clone(), pts.r[i + 1].clone()));
     }
-    for o in &pts.outside {
-        pairs.push((o.clone(), o.clone()));
-        pairs.push((o.clone(), c.neg(o)));
-        pairs.push((o.clone(), r0.clone()));
-        pairs.push((id.clone(), o.clone()));
-    }
     let pairs_v: Vec<Vec<Val>> = pairs.iter().map(|(p, q)| vec![pv(p), pv(q)]).collect();
+    let mut pairs_out: Vec<Vec<Val>> = vec![];
+    for o in &pts.outside {
+        pairs_out.push(vec![pv(o), pv(o)]);
+        pairs_out.push(vec![pv(o), pv(&c.neg(o))]);
+        pairs_out.push(vec![pv(o), pv(&r0)]);
+        pairs_out.push(vec![pv(&id), pv(o)]);
+    }
 
     push(Op::Assign, "assign", singles_v.clone(), 2, true, false);
     // Jubjub's assign_as_public_input documents that validity is left to the verifier's
@@ -293,6 +297,11 @@ fn catalogue<V: Cv>(thorough: bool, seed: u64) -> Vec<Task<V>> {
     push(Op::AddSelf, "add[same variable]", singles_v.clone(), 3, full, false);
     push(Op::Double, "double", singles_v.clone(), 3, true, false);
     push(Op::Negate, "negate", singles_v.clone(), 2, true, false);
+    push(Op::Assign, &format!("assign[{OUT}]"), singles_out.clone(), 2, true, false);
+    push(Op::Add, &format!("add[{OUT}]"), pairs_out.clone(), 3, true, false);
+    push(Op::AddSelf, &format!("add[same variable; {OUT}]"), singles_out.clone(), 3, full, false);
+    push(Op::Double, &format!("double[{OUT}]"), singles_out.clone(), 3, true, false);
+    push(Op::Negate, &format!("negate[{OUT}]"), singles_out.clone(), 2, true, false);
     // select / cond_swap / equality
     let mut sel: Vec<Vec<Val>> = vec![];
     for b in [false, true] {
@@ -312,13 +321,15 @@ fn catalogue<V: Cv>(thorough: bool, seed: u64) -> Vec<Task<V>> {
         push(Op::AssertEqualFixed(g.clone()), "assert_equal_to_fixed[generator]", singles_v.clone(), 2, true, false);
         push(Op::AssertEqualFixed(id.clone()), "assert_equal_to_fixed[identity]", singles_v.clone(), 2, true, false);
         // coordinates
-        push(Op::Coords, "x_coordinate,y_coordinate", singles_v.clone(), 2, true, false);
+        // (the coordinates of the foreign identity are unspecified: not part of the domain)
+        let with_coords: Vec<Vec<Val>> = singles_v.iter().filter(|v| !foreign || !c.is_id(v[0].p())).cloned().collect();
+        push(Op::Coords, "x_coordinate,y_coordinate", with_coords, 2, true, false);
     }
     {
         // point_from_coordinates: valid points, the identity's conventional coordinates, points
         // off the curve, points outside the subgroup
         let mut cs: Vec<Vec<Val>> = vec![];
-        for p in singles.iter() {
+        for p in singles.iter().chain(pts.outside.iter()) {
             let (x, y) = match p {
                 Pt::Inf => (Big::zero(), Big::zero()),
                 Pt::Aff(x, y) => (x.clone(), y.clone()),
@@ -359,7 +370,7 @@ fn catalogue<V: Cv>(thorough: bool, seed: u64) -> Vec<Task<V>> {
             m1o.push(vec![Val::S(rand_scalar::<V>(&mut rng)), pv(o)]);
             m1o.push(vec![Val::S(Big::from(2u8)), pv(o)]);
         }
-        push(Op::Msm(1), "msm[1; base outside the prime-order subgroup]", m1o, mul_cost, false, false);
+        push(Op::Msm(1), &format!("msm[1; {OUT}]"), m1o, mul_cost, false, false);
         for i in 0..if thorough { if foreign { 4 } else { 10 } } else { 1 } {
             m1.push(vec![Val::S(rand_scalar::<V>(&mut rng)), pv(&pts.r[i % pts.r.len()])]);
         }
@@ -404,7 +415,7 @@ fn catalogue<V: Cv>(thorough: bool, seed: u64) -> Vec<Task<V>> {
                 }
                 ins.push([sc, ps].concat());
             }
-            push(Op::Msm(n), &format!("msm[{n}]"), ins, mul_cost * n as u64, (thorough && !foreign) || n <= 2, false);
+            push(Op::Msm(n), &format!("msm[{n}]"), ins, mul_cost * n as u64, (thorough && !foreign && n <= 4) || n <= 2, false);
         }
         // bounded scalars
         let nb = V::scalar_bits();
@@ -476,9 +487,6 @@ fn catalogue<V: Cv>(thorough: bool, seed: u64) -> Vec<Task<V>> {
         if full {
             ins.push(vec![pv(&id)]);
             ins.push(vec![pv(&g)]);
-            for o in &pts.outside {
-                ins.push(vec![pv(o)]);
-            }
         }
         let cost = match k.bits() {
             0..=1 => 1,
@@ -487,6 +495,13 @@ fn catalogue<V: Cv>(thorough: bool, seed: u64) -> Vec<Task<V>> {
             _ => mul_cost,
         };
         push(Op::MulConst(k.clone()), &format!("mul_by_constant[{}]", const_tag(&k)), ins, cost.max(1), full && k.bits() <= 128, false);
+        if full && k.bits() > 1 {
+            push(Op::MulConst(k.clone()), &format!("mul_by_constant[{}; {OUT}]", const_tag(&k)), singles_out.clone(), cost.max(1), false, false);
+        }
+    }
+    if !full {
+        // quick foreign: the documented "the base can be the identity point" on the wide-constant path
+        push(Op::MulConst(&r - 1u8), &format!("mul_by_constant[{}]", const_tag(&(&r - 1u8))), vec![vec![pv(&id)]], mul_cost, false, false);
     }
 
     // ---- chip-specific extras
@@ -673,6 +688,9 @@ fn main() {
     units.sort_by_key(|u| (std::cmp::Reverse(u.2), u.0, u.1));
     // circuit sizes first: the largest circuits (k >= 18: gigabytes per MockProver) run in a
     // second phase on a small pool so that memory stays bounded
+    let done = std::sync::atomic::AtomicUsize::new(0);
+    let total_units = units.len();
+    let t_run = std::time::Instant::now();
     let run_units = |us: &[(usize, usize, u64, u8)]| -> Vec<(Report, (String, OpStats, AtkStats, u32), f64)> {
         us.par_iter()
             .map(|(ji, i, _, phase)| {
@@ -687,6 +705,10 @@ fn main() {
                         (name, OpStats::default(), AtkStats::default(), ks[*ji])
                     }
                 };
+                let d = done.fetch_add(1, std::sync::atomic::Ordering::SeqCst) + 1;
+                if d % 50 == 0 || d == total_units {
+                    eprintln!("[c06] {d}/{total_units} units done after {:.0}s", t_run.elapsed().as_secs_f64());
+                }
                 (part, r, thread_cpu() - t0)
             })
             .collect()
